@@ -171,11 +171,28 @@ func Holders() []Holder {
 			b.Add(RootFile, P(J{"operationId": "deleteO" + strconv.Itoa(slot), "parameters": []any{J{"name": "body", "in": "body", "schema": s}}}, "paths", pt, "delete"),
 				P(J{"description": "ok"}, "paths", pt, "delete", "responses", "204"))
 		}},
+		{Label: "opBodyAtPath[~]", Put: func(b *BundleSpec, slot int, s J) { putOpBodyAt(b, "/~{user}/files"+strconv.Itoa(slot), slot, s) }},
+		{Label: "opResponseAtPath[~]", Put: func(b *BundleSpec, slot int, s J) { putOpResponseAt(b, "/~{user}/files"+strconv.Itoa(slot), slot, s) }},
+		{Label: "opBodyAtPath[space]", Put: func(b *BundleSpec, slot int, s J) { putOpBodyAt(b, "/a b"+strconv.Itoa(slot)+"/{x}", slot, s) }},
+		{Label: "opResponseAtPath[ü]", Put: func(b *BundleSpec, slot int, s J) { putOpResponseAt(b, "/ü"+strconv.Itoa(slot)+"/{c}", slot, s) }},
+		{Label: "opBodyAtPath[trailingSlash]", Put: func(b *BundleSpec, slot int, s J) { putOpBodyAt(b, "/ts"+strconv.Itoa(slot)+"/", slot, s) }},
 		{Label: "nestedInOp", Put: func(b *BundleSpec, slot int, s J) {
 			c := strconv.Itoa(205 + slot)
 			b.Add(RootFile, P(J{"description": "n", "schema": J{"type": "object", "properties": J{"nested": J{"type": "array", "items": s}}}}, "paths", BasePath, "get", "responses", c))
 		}},
 	}...)
+}
+
+// putOpBodyAt / putOpResponseAt: an operation without operationId (generated names come from method and path) under
+// a path template with characters that need escaping in a JSON pointer or a URL.
+func putOpBodyAt(b *BundleSpec, pt string, slot int, s J) {
+	b.Add(RootFile, P(J{"parameters": []any{J{"name": "body", "in": "body", "schema": s}}}, "paths", pt, "post"),
+		P(J{"description": "ok"}, "paths", pt, "post", "responses", "200"))
+}
+
+func putOpResponseAt(b *BundleSpec, pt string, slot int, s J) {
+	b.Add(RootFile, P(J{"description": "ok", "schema": s}, "paths", pt, "get", "responses", "200"),
+		P(J{"description": "d", "schema": J{"type": "array", "items": s}}, "paths", pt, "get", "responses", "default"))
 }
 
 // Contents returns the content kinds; names instantiates the named contents.
@@ -301,6 +318,32 @@ func Contents(names []string) []Content {
 			return J{"type": "object", "properties": J{"first": LocalRef(n1), "second": LocalRef(n2)}}
 		})
 	}
+	// a definition whose only referrer sits inside a definition whose name extends its own (node / nodeList)
+	add("refViaPrefixNamed[local]", "ref-local-names", func(b *BundleSpec, s int) J {
+		b.Add(RootFile, P(simpleObj("node"), "definitions", "pnode"), P(J{"type": "array", "items": LocalRef("pnode")}, "definitions", "pnodeList"))
+		return LocalRef("pnodeList")
+	})
+	add("refViaPrefixNamed[aux]", "ref-aux-names", func(b *BundleSpec, s int) J {
+		b.Add(AuxA, P(simpleObj("anode"), "definitions", "qnode"), P(J{"type": "object", "properties": J{"all": J{"type": "array", "items": J{"$ref": "#/definitions/qnode"}}}}, "definitions", "qnodeList"))
+		return J{"$ref": AuxA + "#/definitions/qnodeList"}
+	}).Aux = true
+	// auxiliary documents whose file name ends with / equals the file name of the root document
+	add("refAuxFileNamedLikeRoot", "ref-aux-files", func(b *BundleSpec, s int) J {
+		b.Add("sub/root.json", P(simpleObj("sameBase"), "definitions", "sameBase"))
+		b.Add("other/xroot.json", P(simpleObj("suffixBase"), "definitions", "suffixBase"))
+		return J{"type": "object", "properties": J{"one": J{"$ref": "sub/root.json#/definitions/sameBase"}, "two": J{"$ref": "other/xroot.json#/definitions/suffixBase"}}}
+	}).Aux = true
+	add("selfRecursiveAuxFileNamedLikeRoot", "recursive-aux", func(b *BundleSpec, s int) J {
+		b.Add("other/xroot.json", P(J{"type": "object", "properties": J{"next": J{"$ref": "#/definitions/rlink"}, "v": J{"type": "string"}}}, "definitions", "rlink"))
+		b.Cyclic = true
+		return J{"$ref": "other/xroot.json#/definitions/rlink"}
+	}).Aux = true
+	add("mutualRecursiveAuxFileNamedLikeRoot", "recursive-aux", func(b *BundleSpec, s int) J {
+		b.Add("sub/root.json", P(J{"type": "object", "properties": J{"o": J{"$ref": "#/definitions/rowner"}}}, "definitions", "ritem"),
+			P(J{"type": "object", "properties": J{"fav": J{"$ref": "#/definitions/ritem"}}}, "definitions", "rowner"))
+		b.Cyclic = true
+		return J{"$ref": "sub/root.json#/definitions/ritem"}
+	}).Aux = true
 	add("twoImportsSameNameTwoFiles", "collide-imports", func(b *BundleSpec, s int) J {
 		b.Add(AuxA, P(simpleObj("fromA"), "definitions", "dup"))
 		b.Add(AuxC, P(simpleObj("fromC"), "definitions", "dup"))
@@ -475,6 +518,25 @@ func Contents(names []string) []Content {
 			c.Pointer = true
 		}
 	}
+	// pointers into a definition whose own name needs escaping; the definition is referred to only through the pointer
+	for _, dn := range names {
+		if dn == "pet" {
+			continue
+		}
+		for _, cx := range []string{"simple", "complex"} {
+			dn, cx := dn, cx
+			c := add("pointerIntoNamedDefinition["+dn+","+cx+"]", "pointer-"+cx, func(b *BundleSpec, s int) J {
+				sub := J{"type": "string", "description": "inner of named"}
+				if cx == "complex" {
+					sub = simpleObj("innerOfNamed")
+				}
+				b.Add(RootFile, P(J{"type": "object", "properties": J{"inner": sub, "plain": J{"type": "string"}}}, "definitions", dn))
+				b.HasPointer = true
+				return J{"$ref": "#/definitions/" + EscName(dn) + "/properties/inner"}
+			})
+			c.Pointer = true
+		}
+	}
 	{
 		c := add("pointerPrefixSibling", "pointer-simple", func(b *BundleSpec, s int) J {
 			// the pointed property's name extends the name of a complex sibling: keys that are string prefixes of one another
@@ -645,6 +707,21 @@ func OtherFeatures(names []string) []Feature {
 		b.use("thingB")
 		b.use("user")
 		b.use("user_home")
+	})
+	add("twoDefsCaseDifferentWithInline", "collide-names", func(b *BundleSpec, s int) {
+		// two definitions whose names differ only by letter case, each holding an inline complex schema under the same property:
+		// the generated names of the two inline schemas are equal up to case
+		b.Add(RootFile, P(J{"type": "object", "properties": J{"data": simpleObj("upper")}}, "definitions", "Widget"),
+			P(J{"type": "object", "properties": J{"data": simpleObj("lower")}}, "definitions", "widget"))
+		b.use("Widget")
+		b.use("widget")
+	})
+	add("unusedAliasOfCollidingImport", "collide", func(b *BundleSpec, s int) {
+		// a top-level alias of a colliding import that nothing refers to, next to a second referrer of the same import
+		b.Add(RootFile, P(simpleObj("rootGadget"), "definitions", "gadget"), P(J{"$ref": AuxA + "#/definitions/gadget"}, "definitions", "alias"),
+			P(J{"description": "second referrer", "schema": J{"type": "object", "properties": J{"g": J{"$ref": AuxA + "#/definitions/gadget"}}}}, "paths", BasePath, "get", "responses", "430"))
+		b.Add(AuxA, P(simpleObj("auxGadget"), "definitions", "gadget"))
+		b.use("gadget")
 	})
 	add("twoInlineSameGeneratedName", "collide-names", func(b *BundleSpec, s int) {
 		b.Add(RootFile, P(J{"type": "object", "properties": J{"home_address": simpleObj("inl1")}}, "definitions", "member"),
